@@ -1198,7 +1198,79 @@ func (c *FnCtx) execRange(st *State, x *ast.RangeStmt) []Out {
 // ---------------------------------------------------------------------------
 // function driver
 
+// loopSignature: what a loop iterates over, as text - stable under edits elsewhere in the function.
+func (c *FnCtx) loopSignature(x ast.Node) string {
+	norm := func(s string) string { return strings.Join(strings.Fields(s), " ") }
+	switch y := x.(type) {
+	case *ast.RangeStmt:
+		return "range " + norm(c.exprText(y.X))
+	case *ast.ForStmt:
+		sig := "for "
+		if y.Cond != nil {
+			sig += norm(c.exprText(y.Cond))
+		}
+		return sig
+	}
+	return ""
+}
+
+// numberLoops assigns the ordinals by which contracts name loops. Source order, except that the loop signatures recorded
+// for the unchanged tree (contracts/loops.lock) are honoured: a loop whose signature is unique in the function keeps the
+// ordinal it had when the contract was written, even if loops before it were added, removed or moved away.
 func (c *FnCtx) numberLoops(body ast.Node) {
+	var loops []ast.Node
+	ast.Inspect(body, func(x ast.Node) bool {
+		switch x.(type) {
+		case *ast.ForStmt, *ast.RangeStmt:
+			loops = append(loops, x)
+		}
+		return true
+	})
+	assigned := map[ast.Node]int{}
+	rec := c.eng.loopLock[c.fi.Key]
+	if len(rec) > 0 && len(c.inlineStack) == 0 {
+		cntR, cntC := map[string]int{}, map[string]int{}
+		for _, s := range rec {
+			cntR[s]++
+		}
+		sigOf := map[ast.Node]string{}
+		for _, l := range loops {
+			sigOf[l] = c.loopSignature(l)
+			cntC[sigOf[l]]++
+		}
+		usedOrd := map[int]bool{}
+		for _, l := range loops {
+			s := sigOf[l]
+			if cntR[s] == 1 && cntC[s] == 1 {
+				for ord, rs := range rec {
+					if rs == s {
+						assigned[l] = ord
+						usedOrd[ord] = true
+					}
+				}
+			}
+		}
+		// the rest in source order over the remaining recorded ordinals; surplus loops get fresh ordinals
+		var free []int
+		for ord := 1; ord <= len(rec); ord++ {
+			if _, ok := rec[ord]; ok && !usedOrd[ord] {
+				free = append(free, ord)
+			}
+		}
+		next := len(rec) + 1
+		for _, l := range loops {
+			if _, ok := assigned[l]; ok {
+				continue
+			}
+			if len(free) > 0 {
+				assigned[l] = free[0]
+				free = free[1:]
+			} else {
+				assigned[l] = next
+				next++
+			}
+		}
+	}
 	n := 0
 	calls := map[string]int{}
 	ast.Inspect(body, func(x ast.Node) bool {
@@ -1206,6 +1278,9 @@ func (c *FnCtx) numberLoops(body ast.Node) {
 		case *ast.ForStmt, *ast.RangeStmt:
 			n++
 			c.loopOrd[x] = n
+			if a, ok := assigned[x]; ok {
+				c.loopOrd[x] = a
+			}
 			if fs, ok := x.(*ast.ForStmt); ok && fs.Init != nil {
 				if as, ok := fs.Init.(*ast.AssignStmt); ok && as.Tok == token.DEFINE && len(as.Lhs) == 1 {
 					if id, ok := as.Lhs[0].(*ast.Ident); ok {
